@@ -693,13 +693,20 @@ def discovered_state(ctx, pkg, rule="R3"):
         for n in ast.walk(pkg.modules[f]):
             if isinstance(n, ast.ClassDef):
                 a = set()
+                i = inst.setdefault(n.name, set())
+                # the annotated names of a @dataclass / NamedTuple body are the FIELDS of its instances (the generated __init__ binds them
+                # on self; a mutable class-level default is refused by dataclasses), not class attributes -- ClassVar aside; a bare
+                # annotation `x: T` binds nothing in any class
+                record = any("dataclass" in ast.unparse(d) for d in n.decorator_list) or any(ast.unparse(b).split(".")[-1] == "NamedTuple" for b in n.bases)
                 for st in n.body:
                     if isinstance(st, ast.Assign):
                         a |= {t.id for t in st.targets if isinstance(t, ast.Name)}
                     elif isinstance(st, ast.AnnAssign) and isinstance(st.target, ast.Name):
-                        a.add(st.target.id)
+                        if record and "ClassVar" not in ast.unparse(st.annotation):
+                            i.add(st.target.id)
+                        elif st.value is not None:
+                            a.add(st.target.id)
                 classattrs.setdefault(n.name, set()).update(a)
-                i = inst.setdefault(n.name, set())
                 for m in ast.walk(n):
                     if isinstance(m, (ast.Assign, ast.AugAssign, ast.AnnAssign)):
                         for t in (m.targets if isinstance(m, ast.Assign) else [m.target]):
